@@ -255,7 +255,7 @@ def seqnum_table(ctx, C, M_code):
             if not r.ok:
                 st = r.trace[-1]["state"] if r.trace else {}
                 row = rows[st.get("i", 1) - 1] if st else None
-                ctx.fail("SeqNum result differs from SeqRing (%s) for row a,b,k,add,sub,diff,newer,lt,gt,off = %s" % (r.violation["name"], row),
+                ctx.fail("SeqNum result differs from SeqRing (%s) for row a,b,k,add,sub,diff,newer,lt,gt,off,le,ge = %s" % (r.violation["name"], row),
                          dict(kind="seqnum", row=row))
         idx = 0
         for a in avals:
@@ -263,7 +263,7 @@ def seqnum_table(ctx, C, M_code):
                 b = (a + off - 1) % M_code + 1
                 k = abs(off) if off else 1
                 A, B = SeqNum(a), SeqNum(b)
-                row = [a, b, k, int(A + k), int(A - k), A.diff(B), int(A.newer_than(B)), int(A < B), int(A > B), off]
+                row = [a, b, k, int(A + k), int(A - k), A.diff(B), int(A.newer_than(B)), int(A < B), int(A > B), off, int(A <= B), int(A >= B)]
                 rows.append(row)
                 ctx.case(("sn", a, off), nontrivial=(a + off < 1 or a + off > M_code or abs(off) > half - 50))
             if len(rows) >= 400000:
@@ -272,7 +272,7 @@ def seqnum_table(ctx, C, M_code):
                 rows = []
         if rows:
             flush(rows, idx)
-        ctx.sample(dict(kind="seqnum_row", columns="a,b,k,a+k,a-k,diff,newer,lt,gt,offset", row=row))
+        ctx.sample(dict(kind="seqnum_row", columns="a,b,k,a+k,a-k,diff,newer,lt,gt,offset,le,ge", row=row))
         # the uninitialised value: 0 + 1 == 1 and construction refuses values outside 0..M
         if int(SeqNum() + 1) != 1:
             ctx.fail("SeqNum() + 1 != 1", dict(kind="zero"))
